@@ -71,3 +71,42 @@ Definition Qdiv_res (a b : Q) : res Q := if Qeqb b 0 then Err DivZero else Ok (Q
   fcos := Qcos_approx;
   facos := fun a => if Qlebb (-1 # 1) a then if Qlebb a 1 then Ok (Qacos_approx a) else Err Dom else Err Dom;
   fltb := Qltb; fleb := Qlebb; feqb := Qeqb }.
+
+(* Correspondence only: two copies of QNum whose ORDER / EQUALITY TESTS are shifted by a margin (1e-11, relative above 1).
+   The end-to-end float correspondences (GramCD, FISTA) run on non-dyadic numbers: where exact arithmetic has a tie
+   (equal scores under np.argmax, an extrapolated objective equal to the current one, a score equal to the tolerance)
+   binary64 has rounding noise and may decide either way.  A trace that disagrees with QNum but agrees with one of these
+   is reported as decision-fragile, not as a disagreement (tools/harness_solvers.py bounds how many there may be). *)
+Definition QMARGIN : Q := 1 # 100000000000.
+Definition qmarg (a b : Q) : Q :=
+  let m := if Qltb (Qabs a) (Qabs b) then Qabs b else Qabs a in QMARGIN * (if Qltb m 1 then 1 else m).
+Definition QNumLoose : Num Q := {|
+  fofZ := fun z => z # 1; fofQ := fun q => Qred q;
+  fadd := fun a b => Qred (a + b); fsub := fun a b => Qred (a - b); fmul := fun a b => Qred (a * b);
+  fopp := Qopp; fabs := Qabs; fsign := Qsign;
+  fmax := fun a b => if Qltb a b then b else a; fmin := fun a b => if Qltb b a then b else a;
+  fdiv := Qdiv_res;
+  fsqrt := fun a => if Qltb a 0 then Err Dom else Ok (Qsqrt_approx a);
+  fsqrt0 := Qsqrt_approx; fexp := Qexp_approx;
+  flog := fun a => if Qlebb a 0 then Err Dom else Ok (Qln_approx a);
+  fpow := fun a b => if Qltb 0 a then Ok (Qexp_approx (Qtrunc (b * Qln_approx a)))
+                     else if Qeqb a 0 then (if Qltb 0 b then Ok 0 else Err Dom) else Err Dom;
+  fcos := Qcos_approx;
+  facos := fun a => if Qlebb (-1 # 1) a then if Qlebb a 1 then Ok (Qacos_approx a) else Err Dom else Err Dom;
+  fltb := fun a b => Qltb a (b + qmarg a b); fleb := fun a b => Qlebb a (b + qmarg a b);
+  feqb := fun a b => Qlebb (Qabs (a - b)) (qmarg a b) |}.
+Definition QNumTight : Num Q := {|
+  fofZ := fun z => z # 1; fofQ := fun q => Qred q;
+  fadd := fun a b => Qred (a + b); fsub := fun a b => Qred (a - b); fmul := fun a b => Qred (a * b);
+  fopp := Qopp; fabs := Qabs; fsign := Qsign;
+  fmax := fun a b => if Qltb a b then b else a; fmin := fun a b => if Qltb b a then b else a;
+  fdiv := Qdiv_res;
+  fsqrt := fun a => if Qltb a 0 then Err Dom else Ok (Qsqrt_approx a);
+  fsqrt0 := Qsqrt_approx; fexp := Qexp_approx;
+  flog := fun a => if Qlebb a 0 then Err Dom else Ok (Qln_approx a);
+  fpow := fun a b => if Qltb 0 a then Ok (Qexp_approx (Qtrunc (b * Qln_approx a)))
+                     else if Qeqb a 0 then (if Qltb 0 b then Ok 0 else Err Dom) else Err Dom;
+  fcos := Qcos_approx;
+  facos := fun a => if Qlebb (-1 # 1) a then if Qlebb a 1 then Ok (Qacos_approx a) else Err Dom else Err Dom;
+  fltb := fun a b => Qltb a (b - qmarg a b); fleb := fun a b => Qlebb a (b - qmarg a b);
+  feqb := Qeqb |}.
